@@ -69,6 +69,20 @@ def showOutcome : Outcome → String
   | .error => "error"
   | .loaded s => s!"loaded:{stateId s}"
 
+/-- the `load_model` directory of the scripts holds the state the harness calls 900 -/
+def parseLm : String → Option LoadModel
+  | "lm=unset" => some .unset
+  | "lm=model" => some (.modelOnly [900])
+  | "lm=full" => some (.snapshot [900] [900])
+  | _ => none
+
+def showStart : Start → String
+  | .fresh => "fresh"
+  | .error => "error"
+  | .loaded s => s!"loaded:{stateId s}"
+  | .warm _ none => "warm:model"
+  | .warm _ (some _) => "warm:full"
+
 def contentTag : Content → String
   | .params [a] => s!"s{a}"
   | .opt [a] => s!"s{a}"
@@ -205,6 +219,7 @@ def runEv (p : Proto) (ord : Name → List FName) (a : Acc) : Ev → Acc
 
 structure Parsed where
   proto : Proto
+  lm : LoadModel
   pre : List (OrdSpec × Ev)
   enums : List (OrdSpec × Ev)
 
@@ -229,11 +244,17 @@ def parseScript (toks : List String) : Option Parsed := do
     | p :: r => some (p, r)
     | [] => none
   let proto ← parseProto ptok
+  let lmToks := rest.filter (·.startsWith "lm=")
+  let rest := rest.filter (fun t => !t.startsWith "lm=")
+  let lm ← match lmToks with
+    | [] => some LoadModel.unset
+    | [t] => parseLm t
+    | _ => none
   let evs ← parseToks { dflt := [], per := [] } rest
   let pre := evs.takeWhile (fun e => !isEnum e.2)
   let enums := evs.dropWhile (fun e => !isEnum e.2)
   if enums.all (fun e => isEnum e.2 || (match e.2 with | .touch => true | _ => false)) then
-    pure { proto, pre, enums }
+    pure { proto, lm, pre, enums }
   else none
 
 /-- (state before the enumerated part, accumulated enumeration) -/
@@ -242,28 +263,33 @@ def evalScript (p : Parsed) : FS × Acc :=
   let a0 := p.pre.foldl step {}
   (a0.fs, p.enums.foldl step { fs := a0.fs })
 
-/-- the conclusion of `C19_crash_consistent` / `C19_roundtrip` as a check on OBSERVED outcomes:
-    `prev` = what the directory resumed before this hook call, `new` = the state being saved,
-    `done` = the call ran to its end -/
-def verdict (prev : Outcome) (new : TrainState) (done : Bool) (obs : Outcome) : String :=
+/-- the conclusion of `C19_crash_consistent_load_model` / `C19_roundtrip` as a check on OBSERVED
+    starts: `prev` = how a run started from the directory before this hook call, `new` = the
+    state being saved, `done` = the call ran to its end -/
+def verdict (prev : Start) (new : TrainState) (done : Bool) (obs : Start) : String :=
   if obs = .error then "partial-snapshot-live"
   else if obs = .loaded new then "ok"
   else if done then "roundtrip-mismatch"
   else if obs = prev then "ok"
-  else if obs = .fresh then "resume-fresh-after-crash"
-  else "roundtrip-mismatch"
+  else match obs with
+    | .fresh => "resume-fresh-after-crash"
+    | .warm _ _ => "resume-fresh-after-crash"
+    | _ => "roundtrip-mismatch"
 
-def parseOutcome (s : String) : Option Outcome :=
+def parseStart (s : String) : Option Start :=
   match s.splitOn ":" with
   | ["fresh"] => some .fresh
   | ["error"] => some .error
+  | ["warm", "model"] => some (.warm [900] none)
+  | ["warm", "full"] => some (.warm [900] (some [900]))
   | ["loaded", id, step] => do pure (.loaded (mkState (← id.toNat?) (← step.toNat?)))
   | ["loaded", "mixed"] => some (.loaded ⟨[], [], [], ⟨0, 0, 0⟩⟩)
   | _ => none
 
 /-- ops:
   `ops <proto> [ord…] <events…>`      → successful operations of the enumerated (`E:`) hook calls
-  `predict <proto> [ord…] <events…>`  → resume outcome after each crash prefix (0..n successful ops)
+  `predict <proto> [lm=unset|model|full] [ord…] <events…>` → how a run with that `load_model`
+                                        starts after each crash prefix (0..n successful ops)
   `fsafter <proto> [ord…] <events…>`  → run directory after each crash prefix
   `verdict <prev> <id> <step> <done:0|1> <observed>` → `ok` | failure key
   `window <k> <n>`                    → replay buffer after pushing batches 0..n-1
@@ -279,14 +305,14 @@ def handle : List String → Option String
   | "predict" :: rest => do
     let p ← parseScript rest
     let (fs0, a) := evalScript p
-    pure (" ".intercalate ((fs0 :: a.steps.map (·.2)).map (fun fs => showOutcome (resume fs))))
+    pure (" ".intercalate ((fs0 :: a.steps.map (·.2)).map (fun fs => showStart (resumeWith p.lm fs))))
   | "fsafter" :: rest => do
     let p ← parseScript rest
     let (fs0, a) := evalScript p
     pure (" ".intercalate ((fs0 :: a.steps.map (·.2)).map showFS))
   | ["verdict", prev, id, step, done, obs] => do
-    let prev ← parseOutcome prev
-    let obs ← parseOutcome obs
+    let prev ← parseStart prev
+    let obs ← parseStart obs
     pure (verdict prev (mkState (← id.toNat?) (← step.toNat?)) (done == "1") obs)
   | ["window", k, n] => do
     let k ← k.toNat?
